@@ -8,6 +8,9 @@ import PydapModel.HandlerSteps
 import Proofs.Sched
 import Proofs.HandlerSteps
 import Proofs.HandlerDiscipline
+import PydapModel.RowHeap
+import PydapModel.RequestRows
+import Proofs.RowHeap
 namespace Pydap.C13
 open Pydap Pydap.Sched
 
@@ -135,7 +138,149 @@ theorem C13_handler_noninterference_audited (ds : Node) (reqs : Nat → Req) (h0
   exact ⟨fun t ht => (C13_complete_outputs Ref.own _ h0 hD σ t ht).1,
          (C13_noninterference Ref.own _ h0 hD σ).2.2.2⟩
 
+/-! ### the records held by the source of a served lazy sequence (`PydapModel/RowHeap.lean`) -/
+
+open Pydap.RowHeap in
+/-- **The map of a selection on a nested sequence (`build_filter` → `recurse`) works on a copy.**  For every
+    heap — source objects of ANY representation (tuples, lists, numpy records), objects the request allocated
+    before — every row value, column and clause, whether `recurse` returns or raises: the source objects are all
+    unchanged, the request's earlier objects are unchanged, and the store `row[col] = …` goes to an object
+    allocated by this very call.  When it returns, the result is a NEW tuple holding the cells of the source row
+    except cell `col`, which is a NEW list of exactly those inner records of the source (the same objects, by
+    reference, in order) that pass the test; the one logged store is the one into the copy. -/
+theorem C13_nested_filter_copy (h : RHeap) (col : Nat) (p : Pred) (row : PVal) :
+    (recurse h col p row).heap.src = h.src ∧
+    (∀ (i : Nat) (o : PObj), h.own[i]? = some o → (recurse h col p row).heap.own[i]? = some o) ∧
+    (∀ s ∈ (recurse h col p row).log, ∃ i, s.target = .own i ∧ h.own.length ≤ i) ∧
+    (∀ out, (recurse h col p row).val = .ok out →
+      ∃ cells cell recs kept,
+        h.items row = .ok cells ∧ cells[col]? = some cell ∧
+        (h.alloc ⟨.list, cells⟩).1.items cell = .ok recs ∧
+        filterRecs (h.alloc ⟨.list, cells⟩).1 p recs = .ok kept ∧
+        out = .ref (.own (h.own.length + 2)) ∧
+        (recurse h col p row).heap.get (.own (h.own.length + 2))
+          = some ⟨.tuple, cells.set col (.ref (.own (h.own.length + 1)))⟩ ∧
+        (recurse h col p row).heap.get (.own (h.own.length + 1)) = some ⟨.list, kept⟩ ∧
+        (recurse h col p row).log = [⟨.own h.own.length, col, locsOf row ++ locsOf cell⟩]) :=
+  have f := recurse_frame h col p row
+  ⟨f.1.src, f.1.own, f.2, fun out hv => recurse_ok h col p row out hv⟩
+
+open Pydap.RowHeap in
+/-- **… and the result is the filtered copy, stated on the source alone.**  On a heap without dangling references
+    (`Closed`), whenever `recurse` returns: the returned tuple's cell `col` is a new list holding exactly the records
+    of the source row's cell `col` that pass the clause's test — both the records and the test read in the SOURCE heap
+    `h` — and every other cell is the source row's cell. -/
+theorem C13_nested_filter_value (h : RHeap) (hc : Closed h) (col : Nat) (p : Pred) (row out : PVal)
+    (hv : (recurse h col p row).val = .ok out) :
+    ∃ cells cell recs kept,
+      h.items row = .ok cells ∧ cells[col]? = some cell ∧ h.items cell = .ok recs ∧
+      filterRecs h p recs = .ok kept ∧
+      (recurse h col p row).heap.get (.own (h.own.length + 2))
+        = some ⟨.tuple, cells.set col (.ref (.own (h.own.length + 1)))⟩ ∧
+      (recurse h col p row).heap.get (.own (h.own.length + 1)) = some ⟨.list, kept⟩ ∧
+      out = .ref (.own (h.own.length + 2)) :=
+  recurse_ok_closed h hc col p row out hv
+
+open Pydap.RowHeap in
+/-- **Serving a request never writes a source record.**  For every source (objects of any representation),
+    every stream of record values, every list of filters (`op(a(row), b(row))` of clauses on outer columns, `bool` of
+    clauses on nested columns) and every chain of maps (any number of clauses on nested and on outer columns,
+    `fix_nested`, column selections), any number of type
+    lookups (`IterData.dtype`: the maps run on the first source record) followed by the full iteration — and also
+    when any of these raises midway: every source object is as before, and every store reached went to an object
+    the request allocated. -/
+theorem C13_rows_frame (src : List PObj) (stream : List PVal) (filts : List RFilt) (maps : List RMap) (peeks : Nat) :
+    (serveRows filts maps ⟨src, []⟩ stream peeks).heap.src = src ∧
+    (∀ s ∈ (serveRows filts maps ⟨src, []⟩ stream peeks).log, ∃ i, s.target = .own i) :=
+  have f := serveRows_frame filts maps stream peeks ⟨src, []⟩
+  ⟨f.1.src, fun s hs => (f.2 s hs).imp fun _ h => h.1⟩
+
+open Pydap.RowHeap in
+/-- **The nested-filter step obeys the ownership discipline of `C13_noninterference`**, hence: any number of
+    requests, each with its own maps, evaluated against ONE served source under ANY schedule — every source object
+    `(none, i)` keeps its initial value, and every request the schedule lets finish has the outputs of its solo run. -/
+theorem C13_rows_noninterference (src : List PObj) (stream : List PVal) (filts : Nat → List RFilt)
+    (maps : Nat → List RMap) (peeks : Nat → Nat) (h0 : Heap GLoc RVal) (σ : List Nat) :
+    let P := fun t => rowProgram src stream (filts t) (maps t) (peeks t) t
+    Disciplined (fun l : GLoc => l.1) P ∧
+    (∀ i, (run (init h0 P) σ).heap (none, i) = h0 (none, i)) ∧
+    (∀ t, (P t).length ≤ σ.count t → ((run (init h0 P) σ).th t).outs = (solo h0 (P t)).2.outs) := by
+  intro P
+  have hD : Disciplined (fun l : GLoc => l.1) P := rows_disciplined src stream filts maps peeks
+  exact ⟨hD, fun i => (C13_noninterference _ P h0 hD σ).2.2.2 (none, i) rfl,
+         fun t ht => (C13_complete_outputs _ P h0 hD σ t ht).1⟩
+
+open Pydap.RowHeap in
+/-- **The discipline theorem extended to the nested-filter step: a whole request.**  Thread `t` runs the pipeline
+    program of `C13_handler_discipline` (every store of copy / selection / wrap / projection, the emission) and then
+    evaluates its filters and maps over the records the source of the served lazy sequence holds.  For every served
+    dataset tree, every family of requests, every source of record objects of any representation, every filters /
+    maps / number of type lookups per request: the family is `Disciplined`; under ANY schedule every object of the
+    served dataset (`own = none`) and every source record object `(none, i)` keeps its initial value, and every
+    request the schedule lets finish has exactly the outputs of its solo run. -/
+theorem C13_request_noninterference (ds : Node) (hs : Served ds) (reqs : Nat → Req)
+    (src : List PObj) (stream : List PVal) (filts : Nat → List RFilt) (maps : Nat → List RMap) (peeks : Nat → Nat)
+    (h0 : Heap ReqLoc RVal) (σ : List Nat) :
+    let P := fun t => requestProgram ds (reqs t) src stream (filts t) (maps t) (peeks t) t
+    Disciplined reqOwner P ∧
+    (∀ r : Ref, r.own = none → (run (init h0 P) σ).heap (.inl r) = h0 (.inl r)) ∧
+    (∀ i, (run (init h0 P) σ).heap (.inr (none, i)) = h0 (.inr (none, i))) ∧
+    (∀ t, (P t).length ≤ σ.count t → ((run (init h0 P) σ).th t).outs = (solo h0 (P t)).2.outs) := by
+  intro P
+  have hD : Disciplined reqOwner P :=
+    disciplined_join Ref.own (fun g : GLoc => g.1) _ _ (C13_handler_discipline ds hs reqs).2.2.2
+      (rows_disciplined src stream filts maps peeks)
+  exact ⟨hD, fun r hr => (C13_noninterference _ P h0 hD σ).2.2.2 (.inl r) hr,
+         fun i => (C13_noninterference _ P h0 hD σ).2.2.2 (.inr (none, i)) rfl,
+         fun t ht => (C13_complete_outputs _ P h0 hD σ t ht).1⟩
+
 /-! non-vacuity -/
+
+section RowExamples
+open Pydap.RowHeap
+
+/-- a source whose first record is a LIST `[1, [rec(10), rec(20)]]` (what csv.reader / json.load yield) -/
+def exSrc : List PObj :=
+  [⟨.list, [.atom 1, .ref (.src 1)]⟩, ⟨.list, [.ref (.src 2), .ref (.src 3)]⟩, ⟨.tuple, [.atom 10]⟩, ⟨.tuple, [.atom 20]⟩]
+
+def exPred : Pred := ⟨0, .gt, .lit 15⟩
+
+/-- `recurse` on it returns (so `C13_nested_filter_copy`'s last part is not vacuous): the new tuple `(1, [rec(20)])`
+    with the very inner record object of the source, and the source is as before -/
+example : (recurse ⟨exSrc, []⟩ 1 exPred (.ref (.src 0))).ok? = some (.ref (.own 2)) ∧
+    (recurse ⟨exSrc, []⟩ 1 exPred (.ref (.src 0))).heap.own
+      = [⟨.list, [.atom 1, .ref (.own 1)]⟩, ⟨.list, [.ref (.src 3)]⟩, ⟨.tuple, [.atom 1, .ref (.own 1)]⟩] ∧
+    (recurse ⟨exSrc, []⟩ 1 exPred (.ref (.src 0))).heap.src = exSrc := by decide
+
+/-- the example source has no dangling reference (`C13_nested_filter_value` applies to it) -/
+example : Closed ⟨exSrc, []⟩ := by
+  intro l o hg v hv
+  cases l with
+  | own i => simp [RHeap.get] at hg
+  | src i =>
+    simp only [RHeap.get, exSrc] at hg
+    rcases i with _ | _ | _ | _ | _ | i <;> simp at hg <;> subst hg <;> simp at hv <;>
+      (try rcases hv with rfl | rfl) <;> (try subst hv) <;> simp [Resolves, RHeap.get, exSrc]
+
+/-- the statement can tell the difference: the variant that copies only tuples (`if isinstance(row, tuple): row =
+    list(row)`) run on the same list record stores INTO THE SOURCE RECORD — the source no longer holds `rec(10)` — and
+    its logged store targets a source object; on a tuple record it behaves like the pinned code -/
+example : (recurseTupleOnly ⟨exSrc, []⟩ 1 exPred (.ref (.src 0))).heap.src ≠ exSrc ∧
+    (recurseTupleOnly ⟨exSrc, []⟩ 1 exPred (.ref (.src 0))).log.map (·.target) = [.src 0] ∧
+    (recurseTupleOnly ⟨[⟨.tuple, [.atom 1, .ref (.src 1)]⟩] ++ exSrc.drop 1, []⟩ 1 exPred (.ref (.src 0))).heap.src
+      = [⟨.tuple, [.atom 1, .ref (.src 1)]⟩] ++ exSrc.drop 1 := by decide
+
+/-- the same for a numpy record row (a writeable view of its array) -/
+example : (recurseTupleOnly ⟨[⟨.nprec, [.atom 1, .ref (.src 1)]⟩] ++ exSrc.drop 1, []⟩ 1 exPred (.ref (.src 0))).heap.src
+      ≠ [⟨.nprec, [.atom 1, .ref (.src 1)]⟩] ++ exSrc.drop 1 := by decide
+
+/-- a whole request (two type lookups, then the iteration, maps `[nest, fix_nested]`) produces real stores, all into
+    objects of the request; a raising evaluation (the second record is a number) keeps the stores made before -/
+example : (serveRows [.truthy] [.nest 1 exPred, .fixNested [false, true]] ⟨exSrc, []⟩ [.ref (.src 0)] 2).log.length = 3 ∧
+    (serveRows [.truthy] [.nest 1 exPred] ⟨exSrc, []⟩ [.ref (.src 0), .atom 5] 0).err? = some .typeError ∧
+    (serveRows [.truthy] [.nest 1 exPred] ⟨exSrc, []⟩ [.ref (.src 0), .atom 5] 0).log.length = 1 := by decide
+
+end RowExamples
 
 /-- a served dataset: one array and a two-column sequence, all objects shared -/
 def exDs : Node :=
@@ -176,5 +321,11 @@ example :
     let wr : Step Nat Nat Nat Unit := ⟨[], [0], fun _ => .ok ([7], [])⟩
     let P : Nat → List (Step Nat Nat Nat Unit) := fun t => if t = 0 then [rd] else if t = 1 then [wr] else []
     ((run (init (fun _ => 0) P) [1, 0]).th 0).outs ≠ ((run (init (fun _ => 0) P) [0, 1]).th 0).outs := by decide
+
+open Pydap.RowHeap in
+/-- the whole-request program of the example dataset and the example source is a real program: the pipeline's
+    stores and the record stores are both in it -/
+example : (requestProgram exDs (exReqs 0) exSrc [.ref (.src 0)] [.truthy] [.nest 1 exPred, .fixNested [false, true]] 1 0).length
+    = (program exDs 0 (exReqs 0)).length + 3 := by decide +kernel
 
 end Pydap.C13
